@@ -108,52 +108,114 @@ func c04Struct(c *Ctx) {
 			n++
 			r.Add("STRUCT.guard", name, "write dominated by the size guard: "+p.TextAt(w.Pos(), w.String()), p.Position(w.Pos()), ok, "this write to buf can execute without the size check having passed")
 		}
-		// read-modify-write needs a dominating plain store of the same byte
-		for _, w := range ws {
-			st, ok := w.(*ssa.Store)
-			if !ok {
-				continue
-			}
-			or, ok := st.Val.(*ssa.BinOp)
-			if !ok || or.Op != token.OR {
-				continue
-			}
-			ld, ok := or.X.(*ssa.UnOp)
-			if !ok {
-				continue
-			}
-			r1, p1 := core.AddrKey(ld.X)
-			r2, p2 := core.AddrKey(st.Addr)
-			if r1 != r2 || p1 != p2 {
-				continue
-			}
-			plain := false
-			for _, w2 := range ws {
-				s2, ok := w2.(*ssa.Store)
-				if !ok || s2 == st {
-					continue
-				}
-				if _, isOr := s2.Val.(*ssa.BinOp); isOr {
-					if bo := s2.Val.(*ssa.BinOp); bo.Op == token.OR {
-						if l2, ok := bo.X.(*ssa.UnOp); ok {
-							ra, pa := core.AddrKey(l2.X)
-							if ra == r2 && pa == p2 {
-								continue // another |= of the same byte
+		// writes made by new helpers that are handed the buffer: the call must be dominated by the guard
+		helperWs := map[*ssa.Function][]ssa.Instruction{}
+		helperBuf := map[*ssa.Function]ssa.Value{}
+		isNew := map[*ssa.Function]bool{}
+		for _, h := range newHelpers(fn) {
+			isNew[h] = true
+		}
+		var visitCalls func(f *ssa.Function, fbuf ssa.Value, at ssa.Instruction, depth int)
+		visitCalls = func(f *ssa.Function, fbuf ssa.Value, at ssa.Instruction, depth int) {
+			for _, b := range f.Blocks {
+				for _, in := range b.Instrs {
+					call, isCall := in.(*ssa.Call)
+					if !isCall {
+						continue
+					}
+					h := call.Call.StaticCallee()
+					if h == nil || !isNew[h] {
+						continue
+					}
+					for i, a := range call.Call.Args {
+						root := a
+						for k := 0; k < 6; k++ {
+							if sl, ok := root.(*ssa.Slice); ok {
+								root = sl.X
 							}
+						}
+						if root != fbuf || i >= len(h.Params) {
+							continue
+						}
+						site := at
+						if site == nil {
+							site = call
+						}
+						if _, done := helperBuf[h]; !done {
+							helperBuf[h] = h.Params[i]
+							helperWs[h] = bufWrites(h, h.Params[i])
+						}
+						for _, w := range helperWs[h] {
+							ok := g != nil && core.EdgeDominates(g.Block(), g.Block().Succs[1], site.Block())
+							n++
+							r.Add("STRUCT.guard", name, "write dominated by the size guard: "+p.TextAt(w.Pos(), w.String())+" (in "+core.FuncName(h)+")", p.Position(w.Pos()), ok, "this write to buf (call at "+p.Position(site.Pos())+") can execute without the size check having passed")
+						}
+						if depth < 2 {
+							visitCalls(h, h.Params[i], site, depth+1)
 						}
 					}
 				}
-				ra, pa := core.AddrKey(s2.Addr)
-				if ra == r2 && pa == p2 && core.Precedes(s2, st) {
-					plain = true
-				}
 			}
-			n++
-			r.Add("STRUCT.rmw", name, "|= on "+p.TextAt(st.Pos(), "buf[k]")+" follows a plain store of that byte", p.Position(st.Pos()), plain, "the byte is or-ed into without having been assigned: the result depends on the previous buffer contents")
+		}
+		visitCalls(fn, buf, nil, 0)
+		rmwSets := [][]ssa.Instruction{ws}
+		for _, h := range newHelpers(fn) {
+			if len(helperWs[h]) > 0 {
+				rmwSets = append(rmwSets, helperWs[h])
+			}
+		}
+		// read-modify-write needs a dominating plain store of the same byte
+		for _, ws := range rmwSets {
+			for _, w := range ws {
+				st, ok := w.(*ssa.Store)
+				if !ok {
+					continue
+				}
+				or, ok := st.Val.(*ssa.BinOp)
+				if !ok || or.Op != token.OR {
+					continue
+				}
+				ld, ok := or.X.(*ssa.UnOp)
+				if !ok {
+					continue
+				}
+				r1, p1 := core.AddrKey(ld.X)
+				r2, p2 := core.AddrKey(st.Addr)
+				if r1 != r2 || p1 != p2 {
+					continue
+				}
+				plain := false
+				for _, w2 := range ws {
+					s2, ok := w2.(*ssa.Store)
+					if !ok || s2 == st {
+						continue
+					}
+					if _, isOr := s2.Val.(*ssa.BinOp); isOr {
+						if bo := s2.Val.(*ssa.BinOp); bo.Op == token.OR {
+							if l2, ok := bo.X.(*ssa.UnOp); ok {
+								ra, pa := core.AddrKey(l2.X)
+								if ra == r2 && pa == p2 {
+									continue // another |= of the same byte
+								}
+							}
+						}
+					}
+					ra, pa := core.AddrKey(s2.Addr)
+					if ra == r2 && pa == p2 && core.Precedes(s2, st) {
+						plain = true
+					}
+				}
+				n++
+				r.Add("STRUCT.rmw", name, "|= on "+p.TextAt(st.Pos(), "buf[k]")+" follows a plain store of that byte", p.Position(st.Pos()), plain, "the byte is or-ed into without having been assigned: the result depends on the previous buffer contents")
+			}
 		}
 		// zero fill: padding bytes are written explicitly
 		zeroLoop := false
-		for _, w := range ws {
+		allWs := ws
+		for _, hw := range helperWs {
+			allWs = append(allWs[:len(allWs):len(allWs)], hw...)
+		}
+		for _, w := range allWs {
 			if st, ok := w.(*ssa.Store); ok && inAnyLoop(st.Block()) {
 				if k, isC := core.ConstInt(st.Val); isC && k == 0 {
 					zeroLoop = true
@@ -334,7 +396,6 @@ func delOrderRule(c *Ctx) int {
 	return 1
 }
 
-
 // c04Hooks: Packet.MarshalTo never writes at or beyond the count it returns. The total is the
 // left operand of the size guard `total > len(buf)`; a write into buf, or into a slice cut from it,
 // at offset o is at absolute position (cap(buf) - cap(slice)) + o, since cutting a slice at its low
@@ -402,7 +463,6 @@ func c04Hooks(c *Ctx) *bounds.Hooks {
 		h.Oblige("write stays below the returned count", d.Entails(q), "a destination byte at or beyond header+payload+padding may be written: "+d.Describe(q))
 	}}
 }
-
 
 // lenFieldRule: in Header.MarshalTo every success return that is reached after the extension
 // profile has been written also has the 16-bit extension length written (by the function itself or
